@@ -650,6 +650,7 @@ class Exec:
             at = lambda i: fs[0](to_z3(as_int(i)))
         out = Seq(n, at, v.kind)
         out._ety = v._ety
+        out.width = v.width                # markers such as the inverse permutation of sorted(...) survive the naming
         return out
 
     def stmt_Assign(self, node, st):
